@@ -23,6 +23,7 @@ import (
 	hclog "github.com/brutella/hc/log"
 	"github.com/brutella/hc/verifshim/vsync"
 
+	"verif/internal/dlcheck"
 	"verif/internal/fw"
 	"verif/internal/refctl"
 	"verif/internal/sched"
@@ -46,6 +47,7 @@ type wireConn struct {
 	// incoming ciphertext, delivered one piece per socket Read; the arrival of each piece is a scheduling point
 	in     [][]byte
 	remote string
+	closed bool // after Close nothing more reaches the peer: writes fail, a stalled write loses its second half
 }
 
 // stallConn is a socket whose FIRST write takes a long (real) time.
@@ -72,6 +74,12 @@ func (f *wireConn) Write(b []byte) (int, error) {
 	if f.point != nil {
 		f.point()
 	}
+	f.mu.Lock()
+	if f.closed {
+		f.mu.Unlock()
+		return 0, net.ErrClosed
+	}
+	f.mu.Unlock()
 	if f.slow && len(b) > 1 && f.point != nil {
 		half := len(b) / 2
 		f.mu.Lock()
@@ -81,6 +89,9 @@ func (f *wireConn) Write(b []byte) (int, error) {
 		f.point() // the peer stalls here
 		f.mu.Lock()
 		defer f.mu.Unlock()
+		if f.closed {
+			return half, net.ErrClosed
+		}
 		if f.deadline != armedBefore {
 			return half, timeoutError{}
 		}
@@ -109,7 +120,15 @@ func (f *wireConn) Read(b []byte) (int, error) {
 	}
 	return n, nil
 }
-func (f *wireConn) Close() error        { return nil }
+func (f *wireConn) Close() error {
+	if f.point != nil {
+		f.point() // the socket is closed at a moment the scheduler chooses
+	}
+	f.mu.Lock()
+	f.closed = true
+	f.mu.Unlock()
+	return nil
+}
 func (f *wireConn) LocalAddr() net.Addr { return addr("10.0.0.1:1") }
 func (f *wireConn) RemoteAddr() net.Addr {
 	if f.remote != "" {
@@ -148,6 +167,12 @@ const read = -4
 // same accessory (own session, own slow socket).
 const otherConn = -5
 
+// closer as a thread's only "length": the thread closes the connection (what net/http does after a read error and
+// what the transport does for every connection when it stops) while the others write. The peer may then miss
+// payloads, but everything that reaches it before the socket is closed still has to decrypt in order: nothing
+// unencrypted, no counter out of order.
+const closer = -6
+
 func has(writers [][]int, kind int) bool {
 	for _, w := range writers {
 		if len(w) == 1 && w[0] == kind {
@@ -185,6 +210,7 @@ type Case struct {
 	Writers  [][]int `json:"writers"`  // per writer goroutine: payload lengths written in order
 	Schedule []int   `json:"schedule"` // choice at each scheduling point
 	Bound    int     `json:"bound"`
+	Prior    int     `json:"prior,omitempty"` // one-byte writes on the connection before the threads start
 }
 
 func payload(w, i, n int) []byte {
@@ -276,13 +302,43 @@ func notifyPayload(sw *accessory.Switch, v bool) []byte {
 func judge(wire [][]byte, want [][]byte) (sym, desc string) { return judgeKey(secret, wire, want) }
 
 func judgeKey(secret [32]byte, wire [][]byte, want [][]byte) (sym, desc string) {
+	return judgeFrom(secret, wire, want, 0, false)
+}
+
+// judgeFrom: start = frame counter of the first frame on the wire; closing = the connection was closed meanwhile:
+// the wire may end inside a frame and payloads may be missing, everything else is as strict as before.
+func judgeFrom(secret [32]byte, wire [][]byte, want [][]byte, start uint64, closing bool) (sym, desc string) {
 	a2c, _ := refctl.SessionKeys(secret[:])
 	var stream []byte
 	for _, w := range wire {
 		stream = append(stream, w...)
 	}
-	var ctr uint64
+	ctr := start
 	pts, err := refctl.OpenFrames(a2c, &ctr, stream)
+	if err != nil && closing && strings.HasPrefix(err.Error(), "truncated") {
+		// the socket was closed in the middle of a frame: what is left over must be the beginning of the frame that
+		// the reference framing produces at this counter for a 1024-byte piece of one of the payloads
+		used := 0
+		for _, p := range pts {
+			used += 2 + len(p) + 16
+		}
+		tail := stream[used:]
+		ok := false
+		for _, p := range want {
+			for off := 0; off < len(p) && !ok; off += 1024 {
+				end := off + 1024
+				if end > len(p) {
+					end = len(p)
+				}
+				k := ctr
+				ok = bytes.HasPrefix(refctl.Frames(a2c, &k, p[off:end]), tail)
+			}
+		}
+		if !ok {
+			return "undecryptable", fmt.Sprintf("the %d bytes that reached the peer after frame %d, before the socket was closed, are not the beginning of an encrypted frame of any payload (they begin with %q)", len(tail), ctr, string(trunc(tail, 24)))
+		}
+		err = nil
+	}
 	if err != nil {
 		return "undecryptable", fmt.Sprintf("frame %d on the wire does not decrypt with the counter of its arrival position (%v): a counter was emitted out of order or reused", ctr, err)
 	}
@@ -303,6 +359,30 @@ func judgeKey(secret [32]byte, wire [][]byte, want [][]byte) (sym, desc string) 
 		}
 		return nil, false
 	}
+	if closing {
+		// whole payloads, then possibly the beginning of one more
+		var matchPrefix func(rest []byte, left [][]byte) bool
+		matchPrefix = func(rest []byte, left [][]byte) bool {
+			if len(rest) == 0 {
+				return true
+			}
+			for i, p := range left {
+				if bytes.HasPrefix(rest, p) {
+					nl := append(append([][]byte{}, left[:i]...), left[i+1:]...)
+					if matchPrefix(rest[len(p):], nl) {
+						return true
+					}
+				} else if bytes.HasPrefix(p, rest) {
+					return true
+				}
+			}
+			return false
+		}
+		if !matchPrefix(plain, want) {
+			return "interleaved", "what reached the peer before the connection was closed is not a sequence of whole payloads (plus the beginning of one): frames of different writes are interleaved or a payload is damaged"
+		}
+		return "", ""
+	}
 	left, ok := match(plain, want)
 	if !ok {
 		return "interleaved", "the decrypted stream is not a sequence of whole payloads: frames of different writes are interleaved or a payload is damaged"
@@ -311,6 +391,13 @@ func judgeKey(secret [32]byte, wire [][]byte, want [][]byte) (sym, desc string) 
 		return "missing", fmt.Sprintf("%d payload(s) never reached the wire", len(left))
 	}
 	return "", ""
+}
+
+func trunc(b []byte, n int) []byte {
+	if len(b) > n {
+		return b[:n]
+	}
+	return b
 }
 
 func wireOrder(wire [][]byte) string {
@@ -322,7 +409,7 @@ func wireOrder(wire [][]byte) string {
 }
 
 // execute runs one schedule of a scenario.
-func execute(c *fw.Ctx, writers [][]int, prefix []int, bound int) []sched.PointRec {
+func execute(c *fw.Ctx, writers [][]int, prefix []int, bound int, prior int) []sched.PointRec {
 	S := &sched.Sched{}
 	vsync.HookLock = func(m *vsync.Mutex) bool {
 		if !S.Active() {
@@ -387,6 +474,16 @@ func execute(c *fw.Ctx, writers [][]int, prefix []int, bound int) []sched.PointR
 			S.Point(nil)
 		}
 	}
+	if has(writers, closer) {
+		fc.slow = true
+	}
+	// a connection that has been in use: `prior` one-byte messages were written before (not scheduled: nothing else runs)
+	for i := 0; i < prior; i++ {
+		conn.Write([]byte{'.'})
+	}
+	if prior > 0 {
+		fc.wire = nil
+	}
 	var fc2 *wireConn
 	var conn2 *hap.Connection
 	if has(writers, otherConn) {
@@ -430,6 +527,10 @@ func execute(c *fw.Ctx, writers [][]int, prefix []int, bound int) []sched.PointR
 			bodies = append(bodies, func() { conn2.Write(payload(8, 8, 1500)) })
 			continue
 		}
+		if len(lens) == 1 && lens[0] == closer {
+			bodies = append(bodies, func() { conn.Close() })
+			continue
+		}
 		if len(lens) == 1 && lens[0] == keepAlive {
 			// a keep-alive round sent by hap.KeepAlive itself (one round, see onceContext)
 			want = append(want, keepAlivePayload())
@@ -458,8 +559,11 @@ func execute(c *fw.Ctx, writers [][]int, prefix []int, bound int) []sched.PointR
 	c.State(1)
 	c.Trace(1)
 	c.Transition(len(out.Points))
-	cas := Case{Writers: writers, Schedule: sched.Choices(out.Points), Bound: bound}
+	cas := Case{Writers: writers, Schedule: sched.Choices(out.Points), Bound: bound, Prior: prior}
 	scen := fmt.Sprint(writers)
+	if prior > 0 {
+		scen += fmt.Sprintf("after-%d-writes", prior)
+	}
 	switch {
 	case out.Stuck:
 		c.NotExhaustive("a writer blocked on a primitive the scheduler does not model (scenario " + scen + "); the free-running pass still applies")
@@ -469,7 +573,7 @@ func execute(c *fw.Ctx, writers [][]int, prefix []int, bound int) []sched.PointR
 		return out.Points
 	}
 	c.Class(scen + ":" + wireOrder(fc.wire))
-	if sym, desc := judge(fc.wire, want); sym != "" {
+	if sym, desc := judgeFrom(secret, fc.wire, want, uint64(prior), has(writers, closer)); sym != "" {
 		c.Report(sym+"/"+scen, desc, cas)
 	}
 	if fc2 != nil {
@@ -486,37 +590,52 @@ func execute(c *fw.Ctx, writers [][]int, prefix []int, bound int) []sched.PointR
 type scenario struct {
 	writers [][]int
 	bound   int // preemption bound, -1 = unbounded
+	prior   int // writes on the connection before the scenario starts
 }
 
 func scenarios(thorough bool) []scenario {
 	s := []scenario{
-		{[][]int{{10}, {1500}}, -1},
-		{[][]int{{300}, {150}}, -1},
-		{[][]int{{1500}, {2100}}, -1},
-		{[][]int{{300, 150}, {1500, 40}}, 2},
-		{[][]int{{300}, {150}, {1500}}, 2},
-		{[][]int{{keepAlive}, {1500}}, -1},
-		{[][]int{{300}, {keepAlive}, {1500}}, 2},
-		{[][]int{{10}, {20}, {1500}}, -1},
-		{[][]int{{1500}, {notify}}, -1},
-		{[][]int{{300}, {notify}, {40}}, 2},
-		{[][]int{{1500}, {read}}, -1},
-		{[][]int{{300}, {read}, {40}}, 2},
-		{[][]int{{1500}, {otherConn}}, -1},
-		{[][]int{{300}, {otherConn}, {read}}, 2},
+		{[][]int{{10}, {1500}}, -1, 0},
+		{[][]int{{300}, {150}}, -1, 0},
+		{[][]int{{1500}, {2100}}, -1, 0},
+		{[][]int{{300, 150}, {1500, 40}}, 2, 0},
+		{[][]int{{300}, {150}, {1500}}, 2, 0},
+		{[][]int{{keepAlive}, {1500}}, -1, 0},
+		{[][]int{{300}, {keepAlive}, {1500}}, 2, 0},
+		{[][]int{{10}, {20}, {1500}}, -1, 0},
+		{[][]int{{1500}, {notify}}, -1, 0},
+		{[][]int{{300}, {notify}, {40}}, 2, 0},
+		{[][]int{{1500}, {read}}, -1, 0},
+		{[][]int{{300}, {read}, {40}}, 2, 0},
+		{[][]int{{1500}, {otherConn}}, -1, 0},
+		{[][]int{{300}, {otherConn}, {read}}, 2, 0},
+		// a connection that has carried 255 / 65535 writes before (where a narrow counter of a lock or a queue wraps)
+		{[][]int{{10}, {1500}}, -1, 255},
+		{[][]int{{10}, {1500}}, -1, 65535},
+		// the connection is closed while writers are active
+		{[][]int{{1500}, {closer}}, -1, 0},
+		{[][]int{{300}, {40}, {closer}}, 2, 0},
+		{[][]int{{300}, {notify}, {closer}}, 2, 0},
 	}
 	if thorough {
 		s = append(s,
-			scenario{[][]int{{300, 150}, {1500, 40}}, -1},
-			scenario{[][]int{{300}, {150}, {1500}}, -1},
-			scenario{[][]int{{300, 1500}, {150, 2100}, {40}}, 3},
-			scenario{[][]int{{300, 40}, {150, 60}, {1500, 80}}, 3},
-			scenario{[][]int{{10}, {20}, {30}, {1500}}, 2},
-			scenario{[][]int{{300, 150, 1500}, {40, 2100, 60}}, -1},
-			scenario{[][]int{{10}, {20}, {30}, {1500}}, -1},
-			scenario{[][]int{{300, 1500}, {150, 2100}, {40}}, 4},
-			scenario{[][]int{{300, 40}, {150, 60}, {1500, 80}}, 4},
-			scenario{[][]int{{1}, {2}, {3}, {4}, {1500}}, 3},
+			scenario{[][]int{{300, 150}, {1500, 40}}, -1, 0},
+			scenario{[][]int{{300}, {150}, {1500}}, -1, 0},
+			scenario{[][]int{{300, 1500}, {150, 2100}, {40}}, 3, 0},
+			scenario{[][]int{{300, 40}, {150, 60}, {1500, 80}}, 3, 0},
+			scenario{[][]int{{10}, {20}, {30}, {1500}}, 2, 0},
+			scenario{[][]int{{300, 150, 1500}, {40, 2100, 60}}, -1, 0},
+			scenario{[][]int{{10}, {20}, {30}, {1500}}, -1, 0},
+			scenario{[][]int{{300, 1500}, {150, 2100}, {40}}, 4, 0},
+			scenario{[][]int{{300, 40}, {150, 60}, {1500, 80}}, 4, 0},
+			scenario{[][]int{{1}, {2}, {3}, {4}, {1500}}, 3, 0},
+			scenario{[][]int{{10}, {1500}}, -1, 256},
+			scenario{[][]int{{10}, {1500}}, -1, 65534},
+			scenario{[][]int{{10}, {1500}}, -1, 65536},
+			scenario{[][]int{{10}, {20}, {1500}}, 2, 65535},
+			scenario{[][]int{{300}, {40}, {closer}}, -1, 0},
+			scenario{[][]int{{300}, {notify}, {closer}}, -1, 0},
+			scenario{[][]int{{300}, {keepAlive}, {closer}}, 2, 0},
 		)
 	}
 	return s
@@ -539,7 +658,17 @@ func interfPass(c *fw.Ctx) {
 	if c.Thorough() {
 		tier = "thorough"
 	}
-	out, err := exec.Command(bin, "interf", tier, "0", "1", c.Scratch, "C08").CombinedOutput()
+	lim := 5 * time.Minute
+	if c.Thorough() {
+		lim = 18 * time.Minute
+	}
+	ictx, icancel := gocontext.WithTimeout(gocontext.Background(), lim)
+	defer icancel()
+	out, err := exec.CommandContext(ictx, bin, "interf", tier, "0", "1", c.Scratch, "C08").CombinedOutput()
+	if ictx.Err() != nil {
+		c.NotExhaustive("statement-level interleavings: the explorer subprocess did not end within its time limit and was stopped")
+		return
+	}
 	var rep struct {
 		Pairs []struct {
 			A          string
@@ -586,6 +715,18 @@ func run(c *fw.Ctx) {
 	if c.Shard == 0 {
 		interfPass(c)
 	}
+	if c.Shard == 1%c.NShards {
+		// net/http interrupts its background read with a read deadline in the past at the end of every request: if
+		// that leaked into the write deadline, an event written at that moment would fail after its counter is spent
+		depth := 3
+		if c.Thorough() {
+			depth = 4
+		}
+		n := dlcheck.Explore(depth, func(sig, desc string, cas dlcheck.Case) { c.Report(sig, desc, cas) })
+		c.Eval(n)
+		c.State(n)
+		c.Note(fmt.Sprintf("deadline forwarding: %d sequences of SetDeadline/SetReadDeadline/SetWriteDeadline calls (length ≤ %d over 12 symbols)", n, depth))
+	}
 	sc := scenarios(c.Thorough())
 	if c.Shard == c.NShards-1 && c.NShards > 1 {
 		racePass(c)
@@ -596,13 +737,13 @@ func run(c *fw.Ctx) {
 			continue
 		}
 		n := sched.Explore(s.bound, func(prefix []int) []sched.PointRec {
-			return execute(c, s.writers, prefix, s.bound)
+			return execute(c, s.writers, prefix, s.bound, s.prior)
 		}, c.Expired)
 		b := "unbounded"
 		if s.bound >= 0 {
 			b = fmt.Sprintf("preemption bound %d", s.bound)
 		}
-		c.Note(fmt.Sprintf("scenario %v: %d schedules, %s completed", s.writers, n, b))
+		c.Note(fmt.Sprintf("scenario %v (after %d earlier writes): %d schedules, %s completed", s.writers, s.prior, n, b))
 		if c.Expired() {
 			c.NotExhaustive("deadline")
 		}
@@ -770,6 +911,14 @@ func replay(c *fw.Ctx, raw json.RawMessage) {
 		}
 		return
 	}
+	var dc dlcheck.Case
+	if json.Unmarshal(raw, &dc) == nil && dc.Kind == "deadline-sequence" {
+		c.Eval(1)
+		if d := dlcheck.Run(dc.Ops); d != "" {
+			c.Report("deadline-not-forwarded/replayed", d, dc)
+		}
+		return
+	}
 	var cas Case
 	json.Unmarshal(raw, &cas)
 	if len(cas.Writers) == 1 && len(cas.Writers[0]) == 1 && cas.Writers[0][0] == -1 {
@@ -777,14 +926,14 @@ func replay(c *fw.Ctx, raw json.RawMessage) {
 		return
 	}
 	hclog.Info.Disable()
-	execute(c, cas.Writers, cas.Schedule, cas.Bound)
+	execute(c, cas.Writers, cas.Schedule, cas.Bound, cas.Prior)
 }
 
 func init() {
 	fw.Register(&fw.Check{
 		ID:    "C08",
 		Level: "model_checking",
-		Rule:  "stateless exploration of goroutine interleavings under a cooperative scheduler with iterative preemption bounding: 2–5 writer goroutines × 1–3 Connection.Write calls with one- and two-frame payloads, keep-alive rounds sent by hap.KeepAlive itself, and EVENTs written by the notifyListener of a real (not started) IP transport after an application value change, over a socket that stalls in the middle of every write (a write deadline armed meanwhile expires for the write in flight), the connection's own reader opening an incoming two-frame request whose ciphertext arrives in five pieces (each arrival a scheduling point) while writes are in flight, and a writer on another connection of the same accessory, on a real hap.Connection with a real secure session; scheduling points = every Lock of a sync.Mutex/RWMutex and every Wait of a sync.Cond in packages hap and crypto (import rewritten to a shim through go build -overlay) and every socket Write; per schedule the captured wire must decrypt front to back with counters in arrival order (reference AEAD) and be a sequence of whole payloads (the same for the other connection's wire), and the reader must get the request intact. 2-writer scenarios unbounded, larger ones preemption bound 2 (thorough: unbounded / 3). Plus the same questions at STATEMENT granularity (subprocess built with a scheduling point before every statement of hc's packages, preemption bound 1 / 2): two writers on one connection, a writer and the reader, writers on two connections, a write that notifies another connection. Plus a free-running pass of the same bodies in a -race build, with one run against a peer that stalls for 3.5 s (real time) in the middle of a write while two more writers arrive. distinct_nontrivial = distinct (scenario, wire record order) outcomes — more than one per scenario means writers really collided",
+		Rule:  "stateless exploration of goroutine interleavings under a cooperative scheduler with iterative preemption bounding: 2–5 writer goroutines × 1–3 Connection.Write calls with one- and two-frame payloads, keep-alive rounds sent by hap.KeepAlive itself, and EVENTs written by the notifyListener of a real (not started) IP transport after an application value change, over a socket that stalls in the middle of every write (a write deadline armed meanwhile expires for the write in flight), the connection's own reader opening an incoming two-frame request whose ciphertext arrives in five pieces (each arrival a scheduling point) while writes are in flight, and a writer on another connection of the same accessory, on a real hap.Connection with a real secure session; scheduling points = every Lock of a sync.Mutex/RWMutex and every Wait of a sync.Cond in packages hap and crypto (import rewritten to a shim through go build -overlay) and every socket Write; per schedule the captured wire must decrypt front to back with counters in arrival order (reference AEAD) and be a sequence of whole payloads (the same for the other connection's wire), and the reader must get the request intact. 2-writer scenarios unbounded, larger ones preemption bound 2 (thorough: unbounded / 3). Plus the same questions at STATEMENT granularity (subprocess built with a scheduling point before every statement of hc's packages, preemption bound 1 / 2): two writers on one connection, a writer and the reader, writers on two connections, a write that notifies another connection. Also: the 2-writer scenario on a connection that has carried 255 / 65535 (thorough also 256, 65534, 65536) writes before; scenarios in which a third thread closes the connection while writers are active (what reaches the peer before the socket closes must still decrypt in order and be whole payloads plus at most the beginning of one — nothing unencrypted); and every sequence of ≤3 (thorough ≤4) SetDeadline / SetReadDeadline / SetWriteDeadline calls through the hap.Connection (net/http's read-deadline calls at the end of every request must not reach the write deadline of a concurrent event write). Plus a free-running pass of the same bodies in a -race build, with one run against a peer that stalls for 3.5 s (real time) in the middle of a write while two more writers arrive. distinct_nontrivial = distinct (scenario, wire record order) outcomes — more than one per scenario means writers really collided",
 		Shards: func(t string) int {
 			if t == "thorough" {
 				return 16
